@@ -9,7 +9,7 @@ import solvercorr as sc
 import solverslices
 from props.c04 import TRUSTED as _T
 
-THEOREMS = ["C01_symbol", "C01_consistency", "C01_bvp_exact", "C01_top_decay"]
+THEOREMS = ["C01_symbol", "C01_consistency", "C01_bvp_exact", "C01_top_decay", "C01_top_decays_in_C"]
 TRUSTED = _T + ["scipy.integrate.solve_ivp (DOP853, rtol 1e-11) as the reference for the continuous boundary-value problem in the oracle"]
 ASSUMPTIONS = [
     "PARTIAL: convergence of the discrete solution to the ODE solution as the grid is refined is not a Coq theorem (no ODE/complex-analysis library is installed); proved are consistency of every layer step, exactness and uniqueness of the discrete two-point problem and the decaying top condition; the asymptotic clause is decided by the oracle against an independent Riccati integration at n, 4n, 16n layers",
@@ -19,12 +19,17 @@ ASSUMPTIONS = [
 
 def gen(ctx):
     n = 45 if ctx.thorough else 15
-    return [sc.mk_case(ctx.rng, analytic=False, kind="vary", nz=ctx.rng.choice([3, 4, 6, 8]), precision="double" if k % 4 else "single")
-            for k in range(n)]
+    cases = []
+    for k in range(n):
+        nz = ctx.rng.choice([3, 4, 6, 8])
+        # output heights in every order: the solution at a height must not depend on how it was asked for
+        lv = ctx.rng.choice([None, None, [nz - 1, 0], list(range(nz))[::-1], [nz - 1, nz // 2, nz - 1], ctx.rng.sample(range(nz), min(3, nz))])
+        cases.append(sc.mk_case(ctx.rng, analytic=False, kind="vary", nz=nz, levels=lv, precision="double" if k % 4 else "single"))
+    return cases
 
 
 def check(ctx):
-    core.check_properties_file(ctx, "Properties/C01.v", THEOREMS, core.AX_NONE)
+    core.check_properties_file(ctx, "Properties/C01.v", THEOREMS, {"C01_top_decays_in_C": core.AX_REALS})
     solverslices.run(ctx)
     cases = gen(ctx)
     recs = sc.correspond(ctx, cases, "c01_")
